@@ -503,6 +503,31 @@ def native_features():
                                          args=dict(feature=vname, table=table)))
                 elif len(samples) < 2:
                     samples.append(dict(query="native/feature", feature=vname, table=table))
+        # text:s with an explicit count of 0 (nonNegativeInteger) and of 1; a document in a single-byte encoding
+        n += 1
+        p = os.path.join(d, "count0.ods")
+        doc = encode_document([("s", [["AB", "CD"]])]).replace("<text:p>AB</text:p>", '<text:p>A<text:s text:c="0"/>B</text:p>').replace(
+            "<text:p>CD</text:p>", '<text:p>C<text:s text:c="1"/>D</text:p>')
+        write_ods(p, doc)
+        try:
+            got = list(rowio.ods_rows(p, 1))
+        except Exception as e:  # noqa
+            got = "%s: %s" % (type(e).__name__, e)
+        if got != [["AB", "C D"]]:
+            failures.append(dict(key="ods-text-s-count", what="text:s with text:c 0 / 1 read as %r, expected [['AB', 'C D']]" % (got,), args={}))
+        for enc in ("iso-8859-1", "windows-1252", "utf-16"):
+            n += 1
+            p = os.path.join(d, "enc_%s.ods" % enc)
+            doc = encode_document([("s", [["K\xe4se", "na\xefve"]])]).replace('encoding="UTF-8"', 'encoding="%s"' % enc)
+            with zipfile.ZipFile(p, "w", zipfile.ZIP_DEFLATED) as z:
+                z.writestr("mimetype", "application/vnd.oasis.opendocument.spreadsheet")
+                z.writestr("content.xml", doc.encode(enc))
+            try:
+                got = list(rowio.ods_rows(p, 1))
+            except Exception as e:  # noqa
+                got = "%s: %s" % (type(e).__name__, e)
+            if got != [["K\xe4se", "na\xefve"]]:
+                failures.append(dict(key="ods-document-encoding", what="content.xml encoded as %s read as %r" % (enc, got), args=dict(encoding=enc)))
         # the same path read again after the document changed (nothing about an earlier read may be remembered)
         p = os.path.join(d, "changing.ods")
         for version, table in enumerate(([["v1", "a"]], [["v2", "b"], ["v2", "c"]])):
